@@ -34,7 +34,8 @@ package errutil
 //@   ensures self.prefix != "" ==> result == strip(self.prefix) + ": " + msg(self.cause)
 
 //@ func WithMessage
-//@   props C10 C07 C12
+//@   props C10 C07 C12 C03
+//@   requires[C03] safeS(message)
 //@   ensures err == nil ==> result == nil
 //@   ensures err != nil ==> typeis(result, *withPrefix) && result.(*withPrefix).cause == err && result.(*withPrefix).prefix == rSprint1(safeV(ifaceOf(message)))
 
@@ -66,35 +67,43 @@ package errutil
 //@   props C10 C16
 //@   ensures result != nil
 //@   ensures[C16] $cap == lvl - 1
+
 //@ func NewWithDepth
-//@   props C10 C16 C12
+//@   props C10 C16 C12 C03
+//@   requires[C03] safeS(msg)
 //@   ensures result != nil && typeis(result, *withstack.withStack) && cause1(result) != nil && typeis(cause1(result), *leafError) && cause1(result).(*leafError).msg == rSprint1(safeV(ifaceOf(msg)))
 //@   ensures[C16] $cap == lvl - 1 - depth
+
 //@ func Newf
 //@   props C10 C16
 //@   ensures result != nil
 //@   ensures[C16] $cap == lvl - 1
+
 //@ func NewWithDepthf
 //@   props C10 C16
 //@   ensures result != nil
 //@   ensures[C16] $cap == lvl - 1 - depth
 //@   loop 2: invariant err != nil
+
 //@ func Wrap
 //@   props C10 C16
 //@   ensures err == nil ==> result == nil
 //@   ensures err != nil ==> result != nil
 //@   ensures[C16] err != nil ==> $cap == lvl - 1
+
 //@ func WrapWithDepth
 //@   props C10 C16 C07
 //@   ensures err == nil ==> result == nil
 //@   ensures err != nil ==> result != nil
 //@   ensures[C07] err != nil ==> rootOf(result) == rootOf(err)
 //@   ensures[C16] err != nil ==> $cap == lvl - 1 - depth
+
 //@ func Wrapf
 //@   props C10 C16
 //@   ensures err == nil ==> result == nil
 //@   ensures err != nil ==> result != nil
 //@   ensures[C16] err != nil ==> $cap == lvl - 1
+
 //@ func WrapWithDepthf
 //@   props C10 C16
 //@   ensures err == nil ==> result == nil
@@ -102,35 +111,42 @@ package errutil
 //@   ensures[C16] old(err) != nil ==> $cap == lvl - 1 - depth
 //@   ensures[C07] old(err) != nil ==> rootOf(result) == rootOf(old(err))
 //@   loop 2: invariant err != nil && rootOf(err) == rootOf(old(err))
+
 //@ func JoinWithDepth
 //@   props C10 C13 C16
 //@   ensures countNonNil(errs, len(errs)) == 0 ==> result == nil
 //@   ensures countNonNil(errs, len(errs)) > 0 ==> result != nil
 //@   ensures[C16] countNonNil(errs, len(errs)) > 0 ==> $cap == lvl - 1 - depth
+
 //@ func AssertionFailedf
 //@   props C10 C16
 //@   ensures result != nil
 //@   ensures[C16] $cap == lvl - 1
+
 //@ func AssertionFailedWithDepthf
 //@   props C10 C16
 //@   ensures result != nil
 //@   ensures[C16] $cap == lvl - 1 - depth
+
 //@ func HandleAsAssertionFailure
 //@   props C10 C07 C16
 //@   ensures origErr == nil ==> result == nil
 //@   ensures origErr != nil ==> result != nil
 //@   ensures[C16] origErr != nil ==> $cap == lvl - 1
+
 //@ func HandleAsAssertionFailureDepth
 //@   props C10 C07 C16
 //@   ensures origErr == nil ==> result == nil
 //@   ensures origErr != nil ==> result != nil
 //@   ensures[C07] origErr != nil ==> typeis(rootOf(result), *barriers.barrierErr) && rootOf(result).(*barriers.barrierErr).maskedErr == origErr
 //@   ensures[C16] origErr != nil ==> $cap == lvl - 1 - depth
+
 //@ func NewAssertionErrorWithWrappedErrf
 //@   props C10 C07 C16
 //@   ensures origErr == nil ==> result == nil
 //@   ensures origErr != nil ==> result != nil
 //@   ensures[C16] origErr != nil ==> $cap == lvl - 1
+
 //@ func NewAssertionErrorWithWrappedErrDepthf
 //@   props C10 C07 C16
 //@   ensures origErr == nil ==> result == nil
@@ -139,6 +155,7 @@ package errutil
 //@   ensures[C16] origErr != nil ==> $cap == lvl - 1 - depth
 
 // ---- As (C14) ----
+
 //@ func As
 //@   props C14 C13 C07
 //@   maypanic
@@ -147,8 +164,24 @@ package errutil
 //@   loop 2: invariant forall j int :: 0 <= j && j < $n ==> !asSpec(causes(c)[j], elemT(typeof(target)), target)
 
 // ---- the special-case printer (C03): what it prints as safe ----
+
 //@ func specialCaseFormat
 //@   props C03
 //@   requires err != nil && p != nil
 //@   requires isLeaf ==> cause1(err) == nil && len(causes(err)) == 0
 //@   uses isany_leaf_text
+
+//@ method (*leafError).SafeDetails
+//@   props C03 C12
+//@   ensures len(result) == 1 && result[0] == strip(redactOf(self.msg))
+//@   ensures[C03] safeSeq(result)
+
+//@ method (*withPrefix).SafeDetails
+//@   props C03 C12
+//@   ensures len(result) == 1 && result[0] == strip(redactOf(self.prefix))
+//@   ensures[C03] safeSeq(result)
+
+//@ method (*withNewMessage).SafeDetails
+//@   props C03 C12
+//@   ensures len(result) == 1 && result[0] == strip(redactOf(self.message))
+//@   ensures[C03] safeSeq(result)
